@@ -1208,7 +1208,9 @@ theorem binds_not_builtin {reg : Registry} {root : Mod} {scope : List Stmt} {nam
     {sc : List Stmt} (h : Binds reg root scope name m td sc) : builtinNames.contains name = false := by
   cases h <;> assumption
 
-/-- In an unambiguous schema, below a resolvable type statement every chain of `Uses` steps ends. -/
+/-- In an unambiguous schema, below a resolvable type statement every chain of `Uses` steps ends.
+(`Unambiguous` holds of no registry — `Goyang.Props.C09.unambiguous_false` —; the usable forms are
+`resolvable_acc'` / `resolvable_not_cyclic'` of Lemmas/TypesComplete.lean over `UnambiguousBelow`.) -/
 theorem resolvable_acc {reg : Registry} (hU : Unambiguous reg) :
     ∀ {root : Mod} {scope : List Stmt} {t : Stmt}, Resolvable reg root scope t →
       Acc (fun b a => Uses reg a b) (root, scope, t)
